@@ -40,6 +40,7 @@ type State struct {
 	ctr    *Term
 	defers []*ssa.Defer
 	dead   bool
+	recMem map[string]*Term // non-nil while a recursive spec body is translated: memory classes are parameters
 }
 
 func (s *State) clone() *State {
@@ -267,6 +268,14 @@ func (e *FnExec) freshMem(st *State, prefix, sort string) *Term {
 }
 
 func (e *FnExec) getMem(st *State, class, sort string) *Term {
+	if st.recMem != nil {
+		if m, ok := st.recMem[class]; ok {
+			return m
+		}
+		m := BVar("m!"+sanitize(class), sort)
+		st.recMem[class] = m
+		return m
+	}
 	if m, ok := st.mem[class]; ok {
 		return m
 	}
